@@ -45,14 +45,14 @@ META = {
 
 CLAUSES = ["ExclusiveOwnership", "IdleBound", "HandoutAliveClean"]
 SANITY = ["TypeOK", "ActiveSane", "NoClosedHeld"]
-ALLK = '{"clean","abandon","nonlast"}'
+ALLK = '{"clean","abandon","nonlast","intr"}'
 
 
 def _c(nb, rounds, mis, mc, deaths, kinds, reaper, closer, dev, nkeys=1):
     return {"NB": nb, "KeysSet": Raw("{%d}" % nkeys), "MaxRounds": rounds, "RoundsSet": Raw("{%d}" % rounds), "MaxIdleSet": Raw(mis), "MaxClock": mc,
             "MaxDeaths": deaths, "Kinds": Raw(kinds), "ReaperInit": Raw('{"wait"}' if reaper else '{"off"}'),
             "CloserInit": Raw('{"start"}' if closer else '{"off"}'),
-            "Dev_MaxIdleZeroKeeps": dev[0], "Dev_LastSessionOnly": dev[1]}
+            "Dev_MaxIdleZeroKeeps": dev[0], "Dev_LastSessionOnly": dev[1], "IntrMode": dev[2] if len(dev) > 2 else "discard"}
 
 
 def _fz(x):
@@ -87,9 +87,9 @@ def _replay(ctx: Ctx, wd, rec: dict) -> None:
         h = d["config"]
         with PW.PoolWorld(d["nb"], h["rounds"], h["mi"], reaper=h["rpc0"] != "off", closer=h["cpc0"] != "off",
                           nkeys=h.get("nkeys", 1)) as w:
-            for a, k, kind, script, pos in d["ops"]:
+            for a, k, kind, script, pos, exc in d["ops"]:
                 if a == "B":
-                    w.step_b(k, kind or None, script or None, pos)
+                    w.step_b(k, kind or None, script or None, pos, exc)
                 else:
                     {"R": w.step_r, "C": w.step_c, "Tick": w.tick}[a]() if a != "Die" else w.die(k)
             mon = list(w.mon)
@@ -105,7 +105,7 @@ def _replay(ctx: Ctx, wd, rec: dict) -> None:
         for _i, clauses in table.judge(ctx, "conc", "PoolUse", [{"case": c, "obs": {k: v for k, v in o.items() if k != "err"}}]):
             for cl in clauses:
                 if not cl.startswith("drift:"):
-                    ctx.violation(cl, _sig(cl, c["mi"], f"{c['kind']}:{c['script']}", sig["level"]), {"row": c, "observed": o})
+                    ctx.violation(cl, _sig(cl, c["mi"], f"{c['kind']}:{c['script']}:{c['exc']}", sig["level"]), {"row": c, "observed": o})
 
 
 def run(ctx: Ctx) -> None:
@@ -132,11 +132,11 @@ def run(ctx: Ctx) -> None:
     cal = PW.calibrate()
     if "error" in cal:
         raise MachineryError(f"pool calibration failed: {cal['error']}")
-    dev = (cal["Dev_MaxIdleZeroKeeps"], cal["Dev_LastSessionOnly"])
+    dev = (cal["Dev_MaxIdleZeroKeeps"], cal["Dev_LastSessionOnly"], cal["IntrMode"])
     ctx.extra["pool_design_followed_by_code"] = cal
 
     graphs = {
-        "G1 2 borrowers x 2 rounds, scripts clean/nonlast, max_idle 0/1": (_c(2, 2, "{0,1}", 0, 0, '{"clean","nonlast"}', False, False, dev), 2),
+        "G1 2 borrowers x 2 rounds, scripts clean/nonlast/intr, max_idle 0/1": (_c(2, 2, "{0,1}", 0, 0, '{"clean","nonlast","intr"}', False, False, dev), 2),
         "G2 2 borrowers + reaper + clock, max_idle 1/2": (_c(2, 1, "{1,2}", 1, 0, '{"clean"}', True, False, dev), 2),
         "G3 2 borrowers + close(), scripts clean/abandon": (_c(2, 1, "{1}", 0, 0, '{"clean","abandon"}', False, True, dev), 2),
         "G4 3 borrowers + one worker death": (_c(3, 1, "{1}", 0, 1, '{"clean"}', False, False, dev), 3),
@@ -181,16 +181,18 @@ def run(ctx: Ctx) -> None:
         # ---- (2) the script table: TLC enumerates the rows
         rows = table.enumerate_cases(ctx, "conc", "PoolUse", invariants=["KindsCovered", "ReuseOnlyWhenIdleAllowed"])
         cases = [r["case"] for r in rows]
-        have = {(c["kind"], c["script"], c["pos"]) for c in cases}
+        have = {(c["kind"], c["script"], c["pos"], c["exc"]) for c in cases}
         if have != set(PW.all_scripts()):
             raise MachineryError(f"PoolUse.tla rows and driver scripts differ: {sorted(have ^ set(PW.all_scripts()))[:5]}")
-        cases.sort(key=lambda c: (c["script"], c["pos"], c["mi"]))
+        cases.sort(key=lambda c: (c["script"], c["pos"], c["exc"], c["mi"]))
         if quick:
-            pick = {("s_unary", 0, 1), ("s_abandon", 1, 1), ("s_abandon_then_close", 1, 1), ("s_unary_intr", 2, 2),
-                    ("s_closed_then_hdr_intr", 1, 1), ("s_stream_close", 1, 0)}
-            sub_cases = [c for c in cases if (c["script"], c["pos"], c["mi"]) in pick]
-        else:
-            sub_cases = cases
+            pick = {("s_unary", 0, "none", 1), ("s_abandon", 1, "none", 1), ("s_abandon_then_close", 1, "none", 1),
+                    ("s_unary_intr", 2, "Exception", 2), ("s_closed_then_hdr_intr", 1, "Exception", 1),
+                    ("s_stream_close", 1, "none", 0), ("s_unary_intr", 1, "OSError", 1), ("s_close_intr", 2, "Base", 1),
+                    ("s_stream_error", 1, "none", 1)}
+            sub_cases = [c for c in cases if (c["script"], c["pos"], c["exc"], c["mi"]) in pick]
+        else:       # every row at max_idle 1; the other max_idle values for the rows without a raising callback
+            sub_cases = [c for c in cases if c["mi"] == 1 or (c["exc"] == "none" and c["pos"] <= 1)]
         fin, fout = ctx.wd.path / "l2_cases.json", ctx.wd.path / "l2_out.json"
         fin.write_text(json.dumps(sub_cases))
         env = dict(os.environ)
@@ -235,7 +237,7 @@ def run(ctx: Ctx) -> None:
                     "observable_history": [f"{m['e']}(b{m['b']},w{m['w']},{m['ok']})" for m in runs[mid]["mon"] if m["e"] != "Idle"]})
         tc = {"NB": 3, "KeysSet": Raw("{1,2}"), "MaxRounds": 2, "RoundsSet": Raw("{1,2}"), "MaxIdleSet": Raw("{0,1,2}"), "MaxClock": 2, "MaxDeaths": 1,
               "Kinds": Raw(ALLK), "ReaperInit": Raw('{"wait","off"}'), "CloserInit": Raw('{"start","off"}'),
-              "Dev_MaxIdleZeroKeeps": True, "Dev_LastSessionOnly": True}       # switches are per-step in the trace spec
+              "Dev_MaxIdleZeroKeeps": True, "Dev_LastSessionOnly": True, "IntrMode": "keep"}       # switches are per-step in the trace spec
         mon_job = pool.submit(tracecheck.validate, ctx, wd, "PoolMonitor", [{"ev": r["mon"]} for r in runs], spec="MSpec",
                               name="PoolMonitor", chunk=5000)
         tr_job = pool.submit(tracecheck.validate, ctx, wd, "PoolTrace", [{**r["header"], "ev": r["trace"]} for r in runs],
@@ -266,7 +268,7 @@ def run(ctx: Ctx) -> None:
                 if cl.startswith("drift:"):
                     ctx.drift.append({"spec": "PoolUse", "level": level, "row": c, "observed": o, "what": cl})
                 else:
-                    ctx.violation(cl, _sig(cl, c["mi"], f"{c['kind']}:{c['script']}", level), {"row": c, "observed": o})
+                    ctx.violation(cl, _sig(cl, c["mi"], f"{c['kind']}:{c['script']}:{c['exc']}", level), {"row": c, "observed": o})
         ctx.extra["table_rows"] = len(cases)
         ctx.extra["table_rows_on_real_subprocess_workers"] = len(sub_cases)
 
@@ -290,7 +292,7 @@ def run(ctx: Ctx) -> None:
                 ctx.violation(clause, _sig(clause, r["header"]["mi"], why, "schedule"),
                               {"config": r["header"], "schedule": m["schedule"], "source": m["source"],
                                "nb": len(r["trace"][0]["held"]) if r["trace"] else 1,
-                               "ops": [[e["a"], e["k"], e["kind"], e["script"], e["pos"]] for e in r["trace"]],
+                               "ops": [[e["a"], e["k"], e["kind"], e["script"], e["pos"], e["exc"]] for e in r["trace"]],
                                "observable_history": [e for e in r["mon"] if e["e"] != "Idle"], "outcome": r["outcome"]})
         ctx.traces_validated += accepted
         ctx.extra["pool_runs"] = len(runs)
